@@ -291,7 +291,9 @@ func NewPool(kt string, code uint, variant string) *Pool {
 		}, nil)
 		forged("f0", func(s *OpSpec) { s.JWS = &JWSOpts{SigMut: func(b []byte) []byte { return make([]byte, len(b)) }} }, nil)
 		forged("f1", func(s *OpSpec) { s.JWS = &JWSOpts{SigMut: func(b []byte) []byte { return b[:len(b)-1] }} }, nil)
-		forged("f2", func(s *OpSpec) { s.JWS = &JWSOpts{SigMut: func(b []byte) []byte { return append(append([]byte{}, b...), 0) }} }, nil)
+		forged("f2", func(s *OpSpec) {
+			s.JWS = &JWSOpts{SigMut: func(b []byte) []byte { return append(append([]byte{}, b...), 0) }}
+		}, nil)
 		forged("h", func(s *OpSpec) { s.RevealKey = s.SignKey; s.SignKey = k("a0") }, func(a *sidetree.Op) { a.ParseOK = false })
 		if b.typ == "deactivate" {
 			forged("g", func(s *OpSpec) { s.SignedSuffix = "EiOtherSuffix" }, func(a *sidetree.Op) { a.ParseOK = false; a.Authorized = true })
